@@ -21,7 +21,7 @@ for f in "$@"; do
     else
       if (cd "$REPO" && timeout 600 go test -vet=off -count=1 ./... ) >/dev/null 2>&1; then
         surv=$((surv+1)); echo "SURVIVOR $ID $f:$desc (check exit $r)"
-      else bytests=$((bytests+1)); fi
+      else bytests=$((bytests+1)); echo "TESTSONLY $ID $f:$desc (check exit $r)"; fi
     fi
     git -C "$REPO" checkout -q -- "$f"
   done
